@@ -254,6 +254,13 @@ def gen_c17(rng: random.Random) -> dict:
         actors.append({"id": f"s{i}", "at": {"on": "state", "match": {"new": "CONNECTED"}}, "steps": steps})
     events = []
     cam_keys = rng.sample([1, 2, 3, 4], rng.randint(1, 3))
+    if kinds.count("states") == 1 and rng.random() < 0.15:
+        # the state consumer raises on a completed image of one camera: that ends the session - were it to survive, the next
+        # image of that camera would have to be its own chunks only
+        for a in actors:
+            for st_ in a["steps"]:
+                if st_.get("do") == "sub" and st_.get("kind") == "states":
+                    st_["raise_on_camera_keys"] = [cam_keys[0]]
     state_names = list(STATE_MODEL)
     for _ in range(rng.randint(3, 14)):
         msgs: list = []
